@@ -71,14 +71,11 @@ func (l *Lines) Reload(blockIdx int) {
 	copy(lines, newBlock)
 }
 
-func (l *Lines) reloadRange(from int, to int) {
-	if from > to {
-		from, to = to, from
-	}
-
-	for i := from; i <= to; i++ {
-		l.Reload(i)
-	}
+// reloadAll reloads all blocks including their positions in the listing. It has
+// to be used after block order changes as blocks differ in number of lines.
+func (l *Lines) reloadAll() {
+	lns := newLines(l.code)
+	l.lines, l.blockStarts = lns.lines, lns.blockStarts
 }
 
 func (l *Lines) Move(fromLine int, toLine int) error {
@@ -105,7 +102,7 @@ func (l *Lines) Move(fromLine int, toLine int) error {
 			return fmt.Errorf("block move failed: %w", err)
 		}
 
-		l.reloadRange(fromBlock, toBlock)
+		l.reloadAll()
 	} else {
 		if fromBlock != toBlock {
 			return fmt.Errorf("instructions cannot be moved among blocks")
